@@ -106,7 +106,17 @@ pub fn check_case(c: &Case) -> Verdict {
         return Verdict::fail(sig, format!("terse listing (flag {}) lacks {missing:?} and has unexpected {extra:?}; a test run executes {:?}", c.ignored, expect_lines.keys().collect::<Vec<_>>()));
     }
     // Divan::list_benches prints what --list prints.
-    vensure!(api.stdout == list.stdout, "list_benches-output", "Divan::list_benches() prints\n{}\nbut --list prints\n{}", api.stdout, list.stdout);
+    // Compared as multisets of node paths: siblings that tie on name and
+    // location are ordered by entry address (DESIGN.md, A8), and the two
+    // runs register their entries at different addresses.
+    let nodes = |r: &TwinRun| super::c13::printed_nodes(&r.stdout, false).ok();
+    vensure!(
+        api.stdout == list.stdout || (nodes(&api).is_some() && nodes(&api) == nodes(&list)),
+        "list_benches-output",
+        "Divan::list_benches() prints\n{}\nbut --list prints\n{}",
+        api.stdout,
+        list.stdout
+    );
 
     // (c) round trip for unique paths.
     let all_paths = multiset(cases.iter().map(|k| k.path_str()));
@@ -199,6 +209,6 @@ pub fn case() -> impl Strategy<Value = Case> {
 }
 
 fn groups(g: &mut Groups) {
-    g.prop("twin", 4_000, 200_000, case(), check_case);
-    g.prop("cli", 300, 8_000, case(), check_cli);
+    g.prop("twin", 16_000, 200_000, || case(), check_case);
+    g.prop("cli", 1_200, 8_000, || case(), check_cli);
 }
